@@ -358,6 +358,10 @@ func (Engine) Describe(property string) core.Description {
 		d.ReplayAttempts = 12
 	case "C17":
 		d.QuickRuns, d.ThoroughRuns = 480, 16000
+	case "C08":
+		// several auditors spread the attestations: histories in which one (auditor, provider) pair is signed,
+		// corrected and withdrawn in the right order need more runs than the other checks' quick tier
+		d.QuickRuns = 2400
 	}
 	d.RequiredProbes = requiredProbes(property)
 	return d
